@@ -182,6 +182,33 @@ pub fn run(ctx: &Ctx) -> i32 {
                 if rng.chance(1, 2) {
                     rng.shuffle(&mut chunks);
                 }
+                match rng.below(4) {
+                    0 => {
+                        // an edit that also grows the palette: the first chunk lists keys[..c] with a stale colour at j,
+                        // the second lists keys[j..] with the real colours (it re-lists j..c and reaches beyond c)
+                        let c = 1 + rng.usize_below(keys.len() - 1);
+                        let j = rng.usize_below(c);
+                        let mut first: BTreeMap<u32, PalEntryM> = keys[..c].iter().map(|k| (*k, base[k].clone())).collect();
+                        let e = first.get_mut(&keys[j]).unwrap();
+                        e.rgba = [e.rgba[0] ^ 0x55, e.rgba[1].wrapping_add(100), e.rgba[2] ^ 0x0f, e.rgba[3]];
+                        let second: BTreeMap<u32, PalEntryM> = keys[j..].iter().map(|k| (*k, base[k].clone())).collect();
+                        chunks = vec![new_palette_chunk(&mut rng, &first), new_palette_chunk(&mut rng, &second)];
+                        res.count("split_edit_and_grow", 1);
+                    }
+                    1 => {
+                        // legacy chunks (different content, redundant beside new-format ones) anywhere in between
+                        let n_legacy = rng.range(1, 2);
+                        for _ in 0..n_legacy {
+                            let kind = if rng.chance(1, 2) { 4u16 } else { 0x11 };
+                            let pcase = 2 + rng.below(4);
+                            let legacy = ChunkSpec::OldPalette { kind, packets: gen_packets(&mut rng, kind, pcase) };
+                            let pos = rng.usize_below(chunks.len() + 1);
+                            chunks.insert(pos, legacy);
+                        }
+                        res.count("split_with_legacy_in_between", 1);
+                    }
+                    _ => {}
+                }
                 res.feature = gen::features(&sp) ^ 0x5b17 ^ chunks.len() as u64;
                 res.count("split_new_chunks", chunks.len() as u64);
                 // an indexed sprite needs its whole palette before validation only at the END of loading,
